@@ -305,9 +305,16 @@ func minimise(e *Engine, fv *FoundViolation, budget float64, variant, tier strin
 		if c.EngineError != "" || v == nil || v.Class != class {
 			return false
 		}
-		// keep the tape as actually consumed (drops unused tail)
+		// keep the candidate, cut to what was actually consumed; an exhausted
+		// tape yields zeros, so trailing zeros carry no information
 		vals := c.T.Values()
-		best = vals
+		if len(vals) < len(cand) {
+			cand = cand[:len(vals)]
+		}
+		for len(cand) > 0 && cand[len(cand)-1] == 0 {
+			cand = cand[:len(cand)-1]
+		}
+		best = append([]int{}, cand...)
 		bestV = v
 		bestTrace = c.Trace
 		bestLabels = labels(c.T)
